@@ -920,6 +920,15 @@ func sameLoadExpr(a, b ssa.Value) bool {
 	case *ssa.Const:
 		y, ok := b.(*ssa.Const)
 		return ok && x.Value != nil && y.Value != nil && x.Value.ExactString() == y.Value.ExactString()
+	case *ssa.MakeInterface:
+		y, ok := b.(*ssa.MakeInterface)
+		return ok && sameLoadExpr(x.X, y.X)
+	case *ssa.ChangeType:
+		y, ok := b.(*ssa.ChangeType)
+		return ok && sameLoadExpr(x.X, y.X)
+	case *ssa.Convert:
+		y, ok := b.(*ssa.Convert)
+		return ok && types.Identical(x.Type(), y.Type()) && sameLoadExpr(x.X, y.X)
 	case *ssa.Call:
 		y, ok := b.(*ssa.Call)
 		if !ok || x.Call.StaticCallee() == nil || x.Call.StaticCallee() != y.Call.StaticCallee() || len(x.Call.Args) != len(y.Call.Args) {
@@ -2175,7 +2184,7 @@ func ruleErrLive(c *Ctx) []Obligation {
 }
 
 func init() {
-	register(&Rule{Name: "MEMO.PAIR", Props: []string{"C13", "C01", "C18"}, Floor: 2,
+	register(&Rule{Name: "MEMO.PAIR", Props: []string{"C13", "C01", "C18", "C06"}, Floor: 2,
 		Doc: "a key that a function files in one set-valued table of the module set is tested in that same table (not in a same-typed sibling table)",
 		Run: ruleMemoPair})
 	register(&Rule{Name: "NS.DUPKEY", Props: []string{"C12"}, Floor: 1,
@@ -2213,6 +2222,16 @@ func ruleMemoPair(c *Ctx) []Obligation {
 				}
 			}
 		})
+		// what is filed: the object itself, a path, or a composed string — never the bare Name of a statement, which
+		// statements of other modules and scopes share
+		for i, w := range writes {
+			con := fmt.Sprintf("%s: key filed #%d in Modules.%s identifies what it stands for", c.FnName(fn), i+1, recordedFieldName(w.f))
+			if owner, kf, _ := loadedField(w.key); kf != nil && kf.Name() == "Name" && owner != nil && isBasic(kf.Type()) {
+				obs = append(obs, bad(R, con, c.InstrPos(w.in), "the set is keyed by the bare "+objName(owner.Obj())+".Name: two different "+strings.ToLower(objName(owner.Obj()))+" statements of the same name (in different modules or scopes) are taken for one, so the second is reported as already in progress / already done"))
+			} else {
+				obs = append(obs, ok(R, con, c.InstrPos(w.in), "keyed by an object, a path or a composed string"))
+			}
+		}
 		n := 0
 		for _, r := range reads {
 			for _, w := range writes {
@@ -2287,6 +2306,287 @@ func ruleNsDupKey(c *Ctx) []Obligation {
 		o := ok(R, "FindModuleByNamespace: no failure inside the table walk", c.Pos(fn.Pos()), "ambiguity is not reported from inside the loop; not decided here")
 		o.Trivial = true
 		obs = append(obs, o)
+	}
+	return obs
+}
+
+func init() {
+	register(&Rule{Name: "CMP.SELF", Props: []string{"C05", "C09", "C10", "C15", "C11"}, Floor: 1,
+		Doc: "no comparison (==, !=, <, >, Equal, Less, cmp.Equal) has the same expression on both sides",
+		Run: ruleCmpSelf})
+	register(&Rule{Name: "APPEND.USE", Props: []string{"C04", "C08", "C11"}, Floor: 15,
+		Doc: "the result of append is used, and where it is stored into the field it was read from it is stored on the same object",
+		Run: ruleAppendUse})
+}
+
+func ruleCmpSelf(c *Ctx) []Obligation {
+	const R = "CMP.SELF"
+	var obs []Obligation
+	n := 0
+	isFloat := func(t types.Type) bool {
+		b, ok := t.Underlying().(*types.Basic)
+		return ok && b.Info()&types.IsFloat != 0
+	}
+	for _, fn := range c.Funcs {
+		if fn.Blocks == nil || !c.isRepoFn(fn) {
+			continue
+		}
+		if root := rootFn(fn); root.Pkg == nil || shortPkg(root.Pkg.Pkg.Path()) == "main" {
+			continue
+		}
+		k := 0
+		eachInstr(fn, func(in ssa.Instruction) {
+			var a, b ssa.Value
+			what := ""
+			switch x := in.(type) {
+			case *ssa.BinOp:
+				switch x.Op {
+				case token.EQL, token.NEQ, token.LSS, token.GTR, token.LEQ, token.GEQ:
+					a, b, what = x.X, x.Y, x.Op.String()
+				}
+			case *ssa.Call:
+				cal := x.Call.StaticCallee()
+				if cal == nil || len(x.Call.Args) < 2 {
+					return
+				}
+				nm := cal.Name()
+				if (nm == "Equal" || nm == "Less" || nm == "ssEqual" || nm == "tsEqual") && (c.isRepoFn(cal) || cal.Pkg != nil && strings.HasSuffix(cal.Pkg.Pkg.Path(), "go-cmp/cmp")) {
+					a, b, what = x.Call.Args[0], x.Call.Args[1], nm
+				}
+			}
+			if a == nil {
+				return
+			}
+			n++
+			if isFloat(a.Type()) {
+				return
+			}
+			if _, isK := a.(*ssa.Const); isK {
+				return
+			}
+			strip := func(v ssa.Value) ssa.Value {
+				if mi, isMI := v.(*ssa.MakeInterface); isMI {
+					return mi.X
+				}
+				return v
+			}
+			a, b = strip(a), strip(b)
+			if a == b || sameLoadExpr(a, b) && evaluatedTogether(in, a, b) {
+				k++
+				obs = append(obs, bad(R, fmt.Sprintf("%s: comparison #%d has two different operands", c.FnName(fn), k), c.InstrPos(in), "both sides of `"+what+"` are the same expression: the test is constant, whatever it was meant to tell apart (two elements, two types, two numbers) is not compared at all"))
+			}
+		})
+	}
+	obs = append(obs, ok(R, "comparisons in the library enumerated", "-", fmt.Sprintf("%d comparisons; none has identical operands unless reported", n)))
+	return obs
+}
+
+func ruleAppendUse(c *Ctx) []Obligation {
+	const R = "APPEND.USE"
+	var obs []Obligation
+	n := 0
+	for _, fn := range c.Funcs {
+		if fn.Blocks == nil || !c.isRepoFn(fn) {
+			continue
+		}
+		if root := rootFn(fn); root.Pkg == nil || shortPkg(root.Pkg.Pkg.Path()) == "main" {
+			continue
+		}
+		k := 0
+		eachInstr(fn, func(in ssa.Instruction) {
+			call, isC := in.(*ssa.Call)
+			if !isC {
+				return
+			}
+			bi, isB := call.Call.Value.(*ssa.Builtin)
+			if !isB || bi.Name() != "append" {
+				return
+			}
+			n++
+			used := false
+			for _, r := range *call.Referrers() {
+				if _, isD := r.(*ssa.DebugRef); !isD {
+					used = true
+				}
+			}
+			if !used {
+				k++
+				obs = append(obs, bad(R, fmt.Sprintf("%s: result of append #%d is used", c.FnName(fn), k), c.InstrPos(call), "the slice returned by append goes nowhere: it was assigned to a variable that is not read again (the wrong one of two lists), so what was appended is lost"))
+				return
+			}
+			// x.F = append(y.F, …): same field ⇒ same object
+			_, srcF, srcBase := loadedField(call.Call.Args[0])
+			var srcKey ssa.Value
+			if srcF == nil {
+				// x.F[k] = append(y.F[k], …)
+				if l, isL := call.Call.Args[0].(*ssa.Lookup); isL {
+					_, srcF, srcBase = loadedField(l.X)
+					srcKey = l.Index
+				}
+			}
+			if srcF == nil {
+				return
+			}
+			for _, r := range *call.Referrers() {
+				var dstF *types.Var
+				var dstBase ssa.Value
+				switch x := r.(type) {
+				case *ssa.Store:
+					if x.Val != ssa.Value(call) {
+						continue
+					}
+					_, dstF, dstBase = fieldOf(x.Addr)
+				case *ssa.MapUpdate:
+					if x.Value != ssa.Value(call) {
+						continue
+					}
+					_, dstF, dstBase = loadedField(x.Map)
+					// x.F[k] = append(x.F[k2], …): the list extended is the one stored back
+					if dstF == srcF && srcKey != nil && x.Key != srcKey && !sameExpr(x.Key, srcKey) {
+						k++
+						obs = append(obs, bad(R, fmt.Sprintf("%s: append #%d onto an element of %s is stored back under the key it was read from", c.FnName(fn), k, recordedFieldName(srcF)), c.InstrPos(call), "the list read under one key is extended and stored under another: the list under the stored key is replaced instead of extended (every earlier element filed under it is lost)"))
+						continue
+					}
+				default:
+					continue
+				}
+				if dstF != srcF || dstBase == nil || srcBase == nil {
+					continue
+				}
+				k++
+				con := fmt.Sprintf("%s: append #%d onto %s is stored back on the same object", c.FnName(fn), k, recordedFieldName(srcF))
+				if resolveArg(rootOf(dstBase)) == resolveArg(rootOf(srcBase)) || AccessPath(dstBase) == AccessPath(srcBase) {
+					o := ok(R, con, c.InstrPos(call), "x."+recordedFieldName(srcF)+" = append(x."+recordedFieldName(srcF)+", …)")
+					o.Trivial = true
+					obs = append(obs, o)
+				} else {
+					obs = append(obs, bad(R, con, c.InstrPos(call), "the list read from one object is extended and stored into the same field of ANOTHER object: the first object does not get the element, the second gets a list that is not its own"))
+				}
+			}
+		})
+	}
+	obs = append(obs, ok(R, "append calls in the library enumerated", "-", fmt.Sprintf("%d appends; every result is used unless reported", n)))
+	return obs
+}
+
+// evaluatedTogether: the two operand expressions of the comparison `at` are evaluated in its own block with nothing in
+// between that could change what they read: every store, map update and call between the first of their instructions
+// and the comparison belongs to one of the two expressions. (Two loads of the same place at different times are not
+// the same value: `indent := l.tcol … l.tcol <= indent`.)
+func evaluatedTogether(at ssa.Instruction, a, b ssa.Value) bool {
+	part := map[ssa.Instruction]bool{}
+	var collect func(v ssa.Value, d int)
+	collect = func(v ssa.Value, d int) {
+		in, isI := v.(ssa.Instruction)
+		if !isI || part[in] || d > 10 {
+			return
+		}
+		if _, isAlloc := v.(*ssa.Alloc); isAlloc {
+			return // a variable's cell is where things are read from, not part of the reading
+		}
+		part[in] = true
+		for _, op := range in.Operands(nil) {
+			if *op != nil {
+				collect(*op, d+1)
+			}
+		}
+	}
+	collect(a, 0)
+	collect(b, 0)
+	blk := at.Block()
+	started := false
+	for _, in := range blk.Instrs {
+		if in == at {
+			break
+		}
+		if part[in] {
+			started = true
+			continue
+		}
+		if !started {
+			continue
+		}
+		switch in.(type) {
+		case *ssa.Store, *ssa.MapUpdate, *ssa.Call, *ssa.Send:
+			return false
+		}
+	}
+	for in := range part {
+		if in.Block() != blk {
+			if _, isPhi := in.(*ssa.Phi); isPhi {
+				continue
+			}
+			switch in.(type) {
+			case *ssa.UnOp, *ssa.Call, *ssa.Lookup:
+				return false // read or computed somewhere else, at another time
+			}
+		}
+	}
+	return true
+}
+
+func init() {
+	register(&Rule{Name: "SCHEMA.EXTFORM", Props: []string{"C03"}, Floor: 1,
+		Doc: "an unknown keyword is handed to the extension slot only when it has exactly one colon (prefix:name); anything else is an unknown statement",
+		Run: ruleSchemaExtForm})
+}
+
+func ruleSchemaExtForm(c *Ctx) []Obligation {
+	const R = "SCHEMA.EXTFORM"
+	build := c.Fn("yang.build")
+	ys := c.Named("yang", "yangStatement")
+	if build == nil || ys == nil {
+		return []Obligation{undecided(R, "AST builder", "-", "yang.build / yangStatement not found")}
+	}
+	fAddext := FieldByType(ys, "func(*Statement, reflect.Value, reflect.Value) error")
+	var obs []Obligation
+	n := 0
+	eachInstr(build, func(in ssa.Instruction) {
+		call, isC := in.(*ssa.Call)
+		if !isC || call.Call.StaticCallee() != nil || call.Call.IsInvoke() {
+			return
+		}
+		if _, f, _ := loadedField(call.Call.Value); f != fAddext || f == nil {
+			return
+		}
+		n++
+		con := fmt.Sprintf("build: extension hand-over #%d is made for a keyword of the form prefix:name", n)
+		exact, loose := false, ""
+		colon := func(v ssa.Value) bool { s, isS := constString(v); return isS && s == ":" }
+		for _, g := range guardsAt(call.Block()) {
+			switch x := g.Cond.(type) {
+			case *ssa.BinOp:
+				k, okk := constInt(x.Y)
+				if !okk || x.Op != token.EQL || !g.Branch {
+					continue
+				}
+				if ln, isLn := x.X.(*ssa.Call); isLn && isLenOf(ln) {
+					if sp, isSp := ln.Call.Args[0].(*ssa.Call); isSp && calleeIs(sp, "strings", "Split") && colon(sp.Call.Args[1]) && k == 2 {
+						exact = true
+					}
+				}
+				if cnt, isCnt := x.X.(*ssa.Call); isCnt && calleeIs(cnt, "strings", "Count") && colon(cnt.Call.Args[1]) && k == 1 {
+					exact = true
+				}
+			case *ssa.Call:
+				if (calleeIs(x, "strings", "Contains") || calleeIs(x, "strings", "ContainsRune")) && g.Branch {
+					loose = c.InstrPos(x)
+				}
+			}
+		}
+		switch {
+		case exact:
+			obs = append(obs, ok(R, con, c.InstrPos(call), "under `exactly one colon`"))
+		case loose != "":
+			obs = append(obs, bad(R, con, c.InstrPos(call), "the arm is entered for any keyword that merely contains a colon ("+loose+"): `a:b:c` or `ex::ext` is filed as an extension instead of failing the build as an unknown statement"))
+		default:
+			o := ok(R, con, c.InstrPos(call), "the form test has a shape this rule does not know; not decided")
+			o.Trivial = true
+			obs = append(obs, o)
+		}
+	})
+	if n == 0 {
+		obs = append(obs, undecided(R, "build: extension hand-over", c.Pos(build.Pos()), "no call through the extension slot found"))
 	}
 	return obs
 }
